@@ -369,6 +369,15 @@ func timedOracle(name string, check func(cScenario, cResult) (string, string)) f
 			}
 		}
 		if name == "c12" {
+			{
+				line := "raw-transmission-probe sizes=300,1500,1501,2014,4000"
+				cliNoteLine(line)
+				res.Evaluations++
+				res.Tags["transmission-over-the-raw-connection"]++
+				if w := cliRawTransmissionProbe(); w != "" {
+					res.fail(Failure{Oracle: name, Input: line, What: w, Class: "raw-transmission-differs"})
+				}
+			}
 			for _, v6 := range []bool{false, true} {
 				for _, rerr := range []bool{false, true} {
 					line := fmt.Sprintf("schedule-probe v6=%v read-error=%v", v6, rerr)
